@@ -55,6 +55,8 @@ class Profile:
         self.ui_p = 0.0                # per-frame probability of a UI interaction change
         self.pads = (0, 2)             # number of gamepads
         self.pad_ctx_p = 0.3           # probability that a context is tied to one gamepad
+        self.padbtn_pool = [0, 1, 4]   # gamepad buttons plain bindings draw from
+        self.padaxis_pool = [0, 1]     # gamepad axes plain bindings draw from
         self.toggle_p = 0.35           # per-frame, per-input probability of a change
         self.held_at_insert_p = 0.0    # probability of pressing inputs before the insertion (C08)
         self.noise_keys = []           # unbound keys toggled randomly
@@ -106,8 +108,8 @@ class AppGen:
         if kind == "wheel":
             return f"wheel {mask}"
         if kind == "padbtn":
-            return f"padbtn {r.choice([0, 1, 4])}"
-        return f"padaxis {r.choice([0, 1])}"
+            return f"padbtn {r.choice(self.p.padbtn_pool)}"
+        return f"padaxis {r.choice(self.p.padaxis_pool)}"
 
     def cond_spec(self, ctx_actions):
         r = self.r
